@@ -98,6 +98,8 @@ def edits(rng, prog, n=1):
         d = p["defs"][name]
         if d["kind"] == "var" and d["value"] == "UNSUPPORTED":
             continue                      # variables of unsupported types are not tracked (outside the property)
+        if d.get("foreign"):
+            continue                      # a function of another package is not tracked either
         if d["kind"] == "var":
             old = d["value"]
             d["value"] = rng.choice([v for v in [1, 2, 3, "s", "t", [1, 2], [2, 1], {"a": 1, "b": [2]}, {"b": [2], "a": 2}, 1.5, False,
@@ -192,6 +194,8 @@ def render_def(name, d, prog, pkg):
     """source text of one definition (as it appears in its module)"""
     if d["kind"] == "var":
         return "%s = %s\n" % (name, _lit(d["value"]))
+    if d.get("foreign"):
+        return "%s = vrec.foreign\n" % name          # a plain function that lives in another package
     if d.get("aslambda"):
         return render_lambda(name, d, prog)
     params = "x"
